@@ -244,7 +244,7 @@ class NumpyInterpreter:
                     self.context[stmt.assignee] = self.eval_mapper(stmt.expression)
 
             for ident, _, _ in stmt.loops:
-                del self.context[ident]
+                self.context.pop(ident, None)
 
     def exec_AssignFunctionCall(self, stmt):
         parameters = [
